@@ -78,7 +78,7 @@ def run(chk):
     progs_e, le = interaction_stream(chk, suffix='var zz = )\n', name='interactions-error')
     judge(chk, [('file', t_) for t_ in le], list(le.values()))
     rng = random.Random(chk.seed)
-    chk.rule = ('rejected inputs: corpus programs damaged by 1-3 token-level mutations, token soup, UTF-8 soup, unterminated literal/comment inserted at every line of multi-line programs, multi-line tokens before the error (also with CR LF line ends and the error on the line where the token closes), nesting 62..70 deep; '
+    chk.rule = ('rejected inputs: corpus programs damaged by 1-3 token-level mutations, token soup, UTF-8 soup, unterminated literal/comment inserted at every line of multi-line programs, multi-line tokens before the error (also with CR LF line ends and the error on the line where the token closes), an unterminated multi-line token met inside a region the parser reads twice (interface method attempt, type-parameter list, index or instantiation), nesting 62..70 deep; '
                 'entry points parse_source / expression / parse_stmt.  oracle: typed error, path, Display returns, (line, col) is a real position and the unexpected token text is there.  non-trivial: the input is rejected; distinct by text.')
     base = streams.snippet_cases()
     n = 2 if chk.tier == 'quick' else 12
@@ -115,6 +115,19 @@ def run(chk):
     for k in range(1, 6):
         cases.append(('file', 'package p\n' + 'type T[P\nany,\nQ any] int\n' * k + 'var x = )\n'))
         cases.append(('file', 'package p\n' + 'type A [N *\n2]int\n' * k + 'func f() { x := }\n'))
+    # a scanner error met *inside a region the parser reads twice* (the caught method-element attempt of an
+    # interface, a type-parameter list, an index that may be an instantiation): the failing token is multi-line, so the
+    # line table has entries beyond the position the parser goes back to before the error is reported again
+    reread = ['type I interface {\n\tM(x ', 'type I interface {\n\tM ', 'type I interface {\n\tm.N ', 'type I interface {\n\t~',
+              'type I interface {\n\tA | ', 'type I interface { M(a int,\n b ', 'type T[P ', 'type T[P any,\nQ ', 'type A [N * ', 'type A [',
+              'var v = a[b, ', 'func f() { x[\n', 'func f[T ', 'func (r R[\nT]) m(a ', 'var s struct {\n\ta, b ', 'func f() { go func(a ']
+    tails = ['`abc\ndef\nghi', '/* open\n\nxx', '"abc\ndef"', '`a`; `b\n\n\n', "'x\n'", '`ok\nok` `bad\nbad\nbad', '/* ok\n */ /* bad\n\n']
+    for pre in reread:
+        for tl in tails:
+            for lead in ('', 'var a = 1\n', 'var r = `l1\nl2`\n\n'):
+                for nl in ('\n', '\r\n'):
+                    cases.append(('file', ('package main\n' + lead + pre + tl).replace('\n', nl)))
+                    cases.append(('file', ('package main\n' + lead + pre + tl + '\n}\nvar z = 1\n').replace('\n', nl)))
     # deep nesting: the depth cap must be a typed error
     for d in (62, 63, 64, 65, 70, 200):
         for op, cl in (('(', ')'), ('[', ']'), ('{', '}')):
